@@ -3,7 +3,8 @@
    Model: Model/Codec.v (the state-file format, decoder after FX5) and Model/Incremental.v (the build cycle as a machine over
    the state file: read/decide, delete, script, compute, create, write byte by byte; the process may die after any step). *)
 From Zinoma.Model Require Import Bytes Cfg Codec Incremental.
-From Zinoma.Proofs Require Import Codec CodecRoundtrip CodecWrite IncrementalKeys Incremental IncrementalCycle IncrementalExamples.
+From Zinoma.Proofs Require Import Codec CodecRoundtrip CodecWrite IncrementalKeys Incremental IncrementalChanges IncrementalCycle
+  IncrementalExamples.
 
 (* ---- the codec ---- *)
 (* a record written in full decodes to what was written — for every order in which the map entries were emitted (the
@@ -36,6 +37,10 @@ Proof. exact wr_env_partial. Qed.
 Theorem C05_completed_write_decodes : forall e rest,
   env_repr e -> env_distinct e -> snd (wr_env e) = true -> dec_env (fst (wr_env e) ++ rest) = Some (e, rest).
 Proof. exact wr_env_complete. Qed.
+
+(* and a completed serialisation has written exactly the encoding *)
+Theorem C05_completed_write_is_enc : forall e, snd (wr_env e) = true -> fst (wr_env e) = enc_env e.
+Proof. exact wr_env_ok. Qed.
 
 (* ---- the cycle ---- *)
 (* after ANY number of steps of the cycle (= the process died there, or the cycle ended), a state file that decodes is either
